@@ -22,6 +22,7 @@ def parseVal? (s : String) : Option Val :=
   else match s.splitOn ":" with
     | ["i", x] => x.toInt?.map .int
     | ["t", x] => x.toNat?.map .tok
+    | ["y", x] => x.toNat?.map fun n => .tok (1000 + n)   -- a Python bytes payload b"y<n>": opaque like a token
     | _ => none
 
 def parseCond? (s : String) : Option Cond :=
@@ -34,7 +35,7 @@ def allSome {α} : List (Option α) → Option (List α)
 
 def showVal : Val → String
   | .int i => s!"i:{i}"
-  | .tok n => s!"t:{n}"
+  | .tok n => if n ≥ 1000 then s!"y:{n - 1000}" else s!"t:{n}"
   | .nil => "n"
   | .keys ks => "k:" ++ "+".intercalate (ks.map toString)
   | .nums ns => "l:" ++ "+".intercalate (ns.map toString)
